@@ -419,14 +419,14 @@ fn grammar_cases() -> Vec<(String, &'static str, Vec<u8>)> {
         out.push((format!("asc_hdr:{hdr}"), "asc", b));
     }
     // pairs of lines: tag bookkeeping (tag -> apid maps) only shows with >= 2 distinct odd tags in one file
-    let gtags = ["[]", "[ ]", "[  ]", "[\t]", "[a]", "[ a ]", "[a_b_c_d]", "[ABCDE]", "[€]", "[ä ö]"];
+    let gtags = ["[]", "[ ]", "[  ]", "[\t]", "[a]", "[ a ]", "[a_b_c_d]", "[ABCDE]", "[€]", "[ä ö]", "[é]", "[ää]", "[aä]", "[öö]"];
     for t1 in gtags {
         for t2 in gtags {
             let b = format!("[2024-03-09 23:01:31.627] [INF] {t1} text a\n[2024-03-09 23:01:31.628] [INF] {t2} text b\n[2024-03-09 23:01:31.629] [INF] {t1} text c\n").into_bytes();
             out.push((format!("genlog_pair:{t1}{t2}"), "log", b));
         }
     }
-    let ltags = ["", " ", "  ", "a", " a ", "a_b_c_d", "ABCDE", "€", "ä ö", "\t"];
+    let ltags = ["", " ", "  ", "a", " a ", "a_b_c_d", "ABCDE", "€", "ä ö", "\t", "é", "ää", "aä", "öö"];
     for t1 in ltags {
         for t2 in ltags {
             let b = format!("--------- beginning of main\n01-01 00:00:01.000  100   100 I {t1}: x\n01-01 00:00:02.000  100   100 I {t2}: y\n01-01 00:00:03.000  100   100 I {t1}: z\n").into_bytes();
@@ -503,7 +503,9 @@ impl Chain {
         self.heavy_uses += 1;
         let heavy = std::mem::take(&mut self.heavy);
         let tmp_path = self.tmp.path().to_string_lossy().to_string();
-        let (filters, fkc, ns) = (&self.filters, &self.fkc, self.namespace);
+        // text readers keep a per-namespace tag -> APID map: a fresh namespace per case keeps the cases independent
+        let ns = if ext == "dlt" { self.namespace } else { get_new_namespace() };
+        let (filters, fkc) = (&self.filters, &self.fkc);
         let mut heavy_back: Option<Vec<Box<dyn Plugin + Send>>> = None;
         let r = catch(|| {
             // 1. read
@@ -670,7 +672,7 @@ impl Prop for C03 {
         Meta {
             id: "C03",
             level: "fault_enumeration",
-            rule: "seed corpus = generated DLT traces covering every verbose argument type, non-verbose, header shapes, every control service id (request/response, non-verbose and verbose, with bodies for the parsed ones), FLST/FLDA/FLFI, network traces, lifecycle shapes + the plugin-specific message pool of the C19 explorer (NonVerbose / SOME/IP incl. segmented NWST-NWCH-NWEN / CAN / Muniic / Rewrite hits and near misses, 82 messages) + the first 40 (thorough: 200) messages of each repository .dlt example + the repository .asc/.txt/.log examples (prefixes). Mutation operators, each enumerated completely over every seed: (a) every truncation point, (b) every offset x {00,01,7F,80,FF,b^1,b^80}, (b2) every offset x 16-bit {0,FFFF,1} / 32-bit {0,FFFFFFFF} windows, (c) every recorded header/type-info/length/numeric/service-id/timestamp field x boundary table (service ids: all known ids, flag bytes: all 256 values), (d) every ordered pair splice of generated DLT seeds at message boundaries, (e, thorough) every pair of adjacent field corruptions for control and file-transfer seeds, (b3) text seeds: every offset replaced by a 3-byte UTF-8 character, (g) uncorrupted multi-lifecycle histories: the boot-trace product of the C08 explorer (1 ECU x 1..2 boots, 2 ECUs x up to (2,2) boots x every interleaving) as valid DLT files, (h) every lifecycle event sequence up to depth 3 over the 40-symbol alphabet and up to depth 6 over the suspend/resume alphabet of the C05-C07 explorer (detection + listing only; thorough: depth 4 / 8), (f) grammar products of text lines (incl. all ordered pairs of 10 odd tags for logcat and generic logs) (timestamp forms x pid/level/tag/text shapes for logcat, time/channel/id/dlc/data for CAN-ASC incl. header lines, date/level/tag for generic logs). Every case runs the full chain on the real code: reader by extension, header/payload text, argument iteration, to_write, EacStats, lifecycle detection + listing, time sort, 10 filters (matches, match_filters, filter_as_streams), FileTransfer(save)/NonVerbose/SomeIp/CAN/Muniic/Rewrite/Anonymize plugins. Oracle: no panic (overflow checks on), no process death (worker isolation), no allocation request >= 32 MiB whose size the unmutated seeds never request. Non-trivial = at least one message was parsed or a violation occurred.".into(),
+            rule: "seed corpus = generated DLT traces covering every verbose argument type, non-verbose, header shapes, every control service id (request/response, non-verbose and verbose, with bodies for the parsed ones), FLST/FLDA/FLFI, network traces, lifecycle shapes + the plugin-specific message pool of the C19 explorer (NonVerbose / SOME/IP incl. segmented NWST-NWCH-NWEN / CAN / Muniic / Rewrite hits and near misses, 82 messages) + the first 40 (thorough: 200) messages of each repository .dlt example + the repository .asc/.txt/.log examples (prefixes). Mutation operators, each enumerated completely over every seed: (a) every truncation point, (b) every offset x {00,01,7F,80,FF,b^1,b^80}, (b2) every offset x 16-bit {0,FFFF,1} / 32-bit {0,FFFFFFFF} windows, (c) every recorded header/type-info/length/numeric/service-id/timestamp field x boundary table (service ids: all known ids, flag bytes: all 256 values), (d) every ordered pair splice of generated DLT seeds at message boundaries, (e, thorough) every pair of adjacent field corruptions for control and file-transfer seeds, (b3) text seeds: every offset replaced by a 3-byte UTF-8 character, (g) uncorrupted multi-lifecycle histories: the boot-trace product of the C08 explorer (1 ECU x 1..2 boots, 2 ECUs x up to (2,2) boots x every interleaving) as valid DLT files, (h) every lifecycle event sequence up to depth 3 over the 40-symbol alphabet and up to depth 6 over the suspend/resume alphabet of the C05-C07 explorer (detection + listing only; thorough: depth 4 / 8), (f) grammar products of text lines (incl. all ordered pairs of 14 odd tags incl. short multi-byte ones for logcat and generic logs) (timestamp forms x pid/level/tag/text shapes for logcat, time/channel/id/dlc/data for CAN-ASC incl. header lines, date/level/tag for generic logs). Every case runs the full chain on the real code: reader by extension, header/payload text, argument iteration, to_write, EacStats, lifecycle detection + listing, time sort, 10 filters (matches, match_filters, filter_as_streams), FileTransfer(save)/NonVerbose/SomeIp/CAN/Muniic/Rewrite/Anonymize plugins. Oracle: no panic (overflow checks on), no process death (worker isolation), no allocation request >= 32 MiB whose size the unmutated seeds never request. Non-trivial = at least one message was parsed or a violation occurred.".into(),
             assumptions: vec!["crash-freedom is decided for the enumerated neighbourhood, not for all byte strings".into(),
                 "FIBEX-configured plugins are re-created every 300 cases (their state carries over within such a window); a panic is re-checked on the single case by replay".into(),
                 "serial-framed DLT is covered through the byte operators on seeds re-framed with DLS markers".into()],
